@@ -161,3 +161,87 @@ def translate(fn, lean_name, kind="bool", _helpers=None, _depth=0):
     if _depth == 0 and t.helpers:
         text = "\n".join(h[2] for h in t.helpers.values()) + "\n" + text
     return text, {"params": params, "self": has_self, "partial": t.opt}
+
+
+# --------------------------------------------------------------------------- methods that rewrite self.data (4 bytes)
+
+class D4(T):
+    """`set_bit` / `unset_bit` of Unsigned32Type: a method (self, bit) whose statements are
+         if [not] self.is_bit_set(bit): raise ...          -> match on the translated accessor (its error propagates)
+         <local> = <integer expression over self.data[k], bit, locals>
+         self.data = bytes(bytearray([e0, e1, e2, e3]))     -> the four new data bytes
+         if/elif/else over integer comparisons
+         return self.data
+       The result is `Option (Nat × Nat × Nat × Nat)`: `none` = an exception, otherwise the four data bytes afterwards.
+       The current bytes are the Lean variables d0..d3 (shadowed by each assignment of self.data)."""
+
+    def num(self, e):
+        if (isinstance(e, ast.Subscript) and isinstance(e.value, ast.Attribute) and isinstance(e.value.value, ast.Name)
+                and e.value.value.id == "self" and e.value.attr == "data" and isinstance(e.slice, ast.Constant)
+                and isinstance(e.slice.value, int) and 0 <= e.slice.value < 4):
+            return "d%d" % e.slice.value
+        return super().num(e)
+
+    def is_bit_call(self, e):
+        return (isinstance(e, ast.Call) and isinstance(e.func, ast.Attribute) and isinstance(e.func.value, ast.Name)
+                and e.func.value.id == "self" and e.func.attr == "is_bit_set" and len(e.args) == 1 and not e.keywords)
+
+    def block4(self, stmts, ind):
+        pad = "  " * ind
+        if not stmts:
+            raise Untranslatable("path without return")
+        s, rest = stmts[0], stmts[1:]
+        if isinstance(s, ast.Expr) and isinstance(s.value, ast.Constant):
+            return self.block4(rest, ind)
+        if isinstance(s, ast.Return):
+            if not (isinstance(s.value, ast.Attribute) and isinstance(s.value.value, ast.Name)
+                    and s.value.value.id == "self" and s.value.attr == "data"):
+                raise Untranslatable("return value")
+            return pad + "some (d0, d1, d2, d3)"
+        if isinstance(s, ast.Raise):
+            return pad + "none"
+        if isinstance(s, ast.Assign) and len(s.targets) == 1:
+            t, v = s.targets[0], s.value
+            if isinstance(t, ast.Name):
+                self.locals.add(t.id)
+                return pad + "let %s := %s\n" % (t.id, self.num(v)) + self.block4(rest, ind)
+            if (isinstance(t, ast.Attribute) and isinstance(t.value, ast.Name) and t.value.id == "self" and t.attr == "data"
+                    and isinstance(v, ast.Call) and isinstance(v.func, ast.Name) and v.func.id == "bytes" and len(v.args) == 1
+                    and isinstance(v.args[0], ast.Call) and isinstance(v.args[0].func, ast.Name) and v.args[0].func.id == "bytearray"
+                    and len(v.args[0].args) == 1 and isinstance(v.args[0].args[0], ast.List) and len(v.args[0].args[0].elts) == 4):
+                es = [self.num(x) for x in v.args[0].args[0].elts]
+                # bytearray([..]) raises ValueError for an element outside 0..255
+                guard = " && ".join("decide (%s < 256)" % x for x in es)
+                return (pad + "if !(%s) then none else\n" % guard
+                        + pad + "let (d0, d1, d2, d3) := ((%s), (%s), (%s), (%s))\n" % tuple(es) + self.block4(rest, ind))
+            raise Untranslatable("assignment")
+        if isinstance(s, ast.If):
+            test, neg = s.test, False
+            if isinstance(test, ast.UnaryOp) and isinstance(test.op, ast.Not):
+                test, neg = test.operand, True
+            if self.is_bit_call(test):
+                arg = self.num(test.args[0])
+                then = self.block4(s.body + ([] if self.ends(s.body) else rest), ind + 2)
+                other = list(s.orelse)
+                els = self.block4(other + ([] if (other and self.ends(other)) else rest), ind + 2)
+                t_branch, f_branch = (els, then) if neg else (then, els)
+                return (pad + "match %s (fun k => if k = 0 then d0 else if k = 1 then d1 else if k = 2 then d2 else d3) %s with\n" % (self.isbit, arg)
+                        + pad + "| none => none\n" + pad + "| some true =>\n" + t_branch + "\n" + pad + "| some false =>\n" + f_branch)
+            c = self.boo(s.test)
+            then = self.block4(s.body + ([] if self.ends(s.body) else rest), ind + 1)
+            other = list(s.orelse)
+            els = self.block4(other + ([] if (other and self.ends(other)) else rest), ind + 1)
+            return pad + "if %s then\n%s\n%selse\n%s" % (c, then, pad, els)
+        raise Untranslatable("statement " + type(s).__name__)
+
+
+def translate_data4(fn, lean_name, isbit_lean_name):
+    src = textwrap.dedent(inspect.getsource(fn))
+    tree = ast.parse(src).body[0]
+    args = [a.arg for a in tree.args.args]
+    if args != ["self", "bit"] or tree.args.vararg or tree.args.kwarg or tree.args.kwonlyargs or tree.args.defaults:
+        raise Untranslatable("signature")
+    t = D4(["bit"], True, fn, lean_name)
+    t.locals, t.opt, t.isbit = set(), True, isbit_lean_name
+    body = t.block4(tree.body, 1)
+    return "def %s (d0 d1 d2 d3 : Nat) (bit : Nat) : Option (Nat × Nat × Nat × Nat) :=\n%s\n" % (lean_name, body)
